@@ -11,6 +11,7 @@ CONSTANTS
  FP <- FPcollide
  MaxOps = 2
  MaxCount = 3
+ WithScan = FALSE
  AllowClose = TRUE
  Dev = {}
  MaxHist = 0
